@@ -290,13 +290,11 @@ theorem disjoint_sides (env : Env c Ht L) {p : List Bool} {b : Bool} {kv : Trie.
   obtain ⟨⟨fk, v⟩, hleaf, hh, _, rfl⟩ := hx
   obtain ⟨fkl, vl, rest, efk⟩ := leavesOf_spec t2 h2 (p ++ [!b]) c2 v2 l2 (fk, v) hleaf
   simp only at fkl vl efk
-  obtain ⟨y, hy, ey⟩ := hashT_is_hash (c := c) h' (p ++ [b] ++ q) s sne
-  have yx : y = c.enc fk ++ v ++ [byteOf hh] := env.good.inj y (hL y hy) _ xL (by rw [← ey]; exact ex.symm)
   cases s with
   | empty => exact sne rfl
   | leaf k' v' =>
-    simp only [hashedT, List.mem_singleton] at hy
-    subst hy
+    have yx : c.enc (p ++ [b] ++ q ++ k') ++ v' ++ [byteOf h'] = c.enc fk ++ v ++ [byteOf hh] :=
+      env.good.inj _ (hL _ (by simp [hashedT])) _ xL ex.symm
     have kl : (p ++ [b] ++ q ++ k').length = Ht := by
       simp only [Canon] at cs
       simp only [List.length_append] at ls ⊢
@@ -308,19 +306,12 @@ theorem disjoint_sides (env : Env c Ht L) {p : List Bool} {b : Bool} {kv : Trie.
     have := List.append_cancel_left this
     cases b <;> simp at this
   | node l r =>
-    simp only [hashedT, List.mem_cons] at hy
-    have ylen : y.length ≤ 64 := by
-      have := hashT_is_hash (c := c) h' (p ++ [b] ++ q) (T.node l r) sne
-      rcases hy with rfl | hy
-      · exact node_pre_len env.ok _ _ _ _ l r
-      · -- `y` is the pre-image of the root: `ey` says `hashT … = H y`; the root's pre-image is the only candidate
-        have : c.H y = c.H (hashT c (h' - 1) (p ++ [b] ++ q ++ [false]) l ++ hashT c (h' - 1) (p ++ [b] ++ q ++ [true]) r) := by
-          rw [← ey]; rfl
-        have := env.good.inj y (hL y (by simp [hashedT, hy])) _ (hL _ (by simp [hashedT])) this
-        rw [this]
-        exact node_pre_len env.ok _ _ _ _ l r
-    have : y.length = 65 := by rw [yx]; simp [env.ok.encLen _ fkl, vl]
-    omega
+    have yx : hashT c (h' - 1) (p ++ [b] ++ q ++ [false]) l ++ hashT c (h' - 1) (p ++ [b] ++ q ++ [true]) r =
+        c.enc fk ++ v ++ [byteOf hh] :=
+      env.good.inj _ (hL _ (by simp [hashedT])) _ xL ex.symm
+    have ylen := node_pre_len env.ok (h' - 1) (h' - 1) (p ++ [b] ++ q ++ [false]) (p ++ [b] ++ q ++ [true]) l r
+    rw [yx] at ylen
+    simp [env.ok.encLen _ fkl, vl] at ylen
 
 /-! ### the invariant of a call -/
 
@@ -335,5 +326,690 @@ theorem Inv.mono {h : Nat} {p : List Bool} {OK OK' : Trie.Bytes → Prop} {un : 
     (i : Inv c Ht L h p OK un r) (hm : ∀ k, OK k → OK' k) : Inv c Ht L h p OK' un r :=
   ⟨i.genuine, fun kv hkv => (i.present kv hkv).imp_right (hm _),
     fun e he ge => (i.frame e he ge).imp_right (Or.imp_left (hm _))⟩
+
+/-- facts available at a node once both children have been processed (`un2`: `updatedNodes` at that point) -/
+structure Mid (c : HashCtx) (Ht : Nat) (L : List Trie.Bytes) (h : Nat) (p : List Bool) (OK : Trie.Bytes → Prop)
+    (un un2 : UN) (l' r' : T Trie.Bytes) : Prop where
+  genuine : ∀ e ∈ un2, e ∈ un ∨ Genuine c Ht L e
+  presL : ∀ kv ∈ pairsAt c (h - 1) (p ++ [false]) l', kv ∈ un2 ∨ OK kv.1
+  presR : ∀ kv ∈ pairsAt c (h - 1) (p ++ [true]) r', kv ∈ un2 ∨ OK kv.1
+  frame : ∀ e ∈ un, Genuine c Ht L e →
+    e ∈ un2 ∨ OK e.1 ∨ e.1 ∈ LeafK c Ht (p ++ [false]) l' ∨ e.1 ∈ LeafK c Ht (p ++ [true]) r'
+
+/-- the old keys at a node: those of the children, and the node's own old root -/
+def OKn (OK : Trie.Bytes → Prop) (old : Trie.Bytes) : Trie.Bytes → Prop := fun k => OK k ∨ (old ≠ [] ∧ k = old)
+
+theorem root_genuine {h : Nat} {p : List Bool} {t : T Trie.Bytes} (hne : t ≠ .empty) (cn : Canon h t) (v32 : Vals32 t)
+    (hp : p.length + h = Ht) (cl : Closed c Ht L h p t) : Genuine c Ht L (hashT c h p t, batchVal c h p t) :=
+  ⟨h, p, t, hne, cn, v32, by simpa using hp, by simpa using cl.1, by simp⟩
+
+/-- a genuine entry survives `storeNode` of a genuine new root, unless its key is the old root's -/
+theorem keep_store (env : Env c Ht L) {un2 : UN} {h : Nat} {p : List Bool} {t : T Trie.Bytes} {old : Trie.Bytes}
+    (gr : Genuine c Ht L (hashT c h p t, batchVal c h p t))
+    {e : Trie.Bytes × Trie.Bytes} (ge : Genuine c Ht L e) (he : e ∈ un2) :
+    e ∈ storeNodeU c (batchVal c) un2 h p t old ∨ (old ≠ [] ∧ e.1 = old) := by
+  rcases storeNodeU_keep (c := c) (val := batchVal c) (h := h) (p := p) (new := t) (old := old) he with h1 | h1 | h1
+  · exact Or.inl h1
+  · left
+    have : e = (hashT c h p t, batchVal c h p t) := by
+      have := genuine_unique env.ok env.good ge gr h1
+      exact Prod.ext h1 this
+    rw [this]
+    exact storeNodeU_new un2 h p t old (genuine_ne_zero env gr)
+  · by_cases ho : old = []
+    · subst ho
+      exact absurd h1 (genuine_ne_zero env ge)
+    · exact Or.inr ⟨ho, by rw [h1, nodeKey_of_ne ho]⟩
+
+theorem keep_del (env : Env c Ht L) {un2 : UN} {old : Trie.Bytes}
+    {e : Trie.Bytes × Trie.Bytes} (ge : Genuine c Ht L e) (he : e ∈ un2) :
+    e ∈ delU un2 old ∨ (old ≠ [] ∧ e.1 = old) := by
+  by_cases h1 : e.1 = nodeKey old
+  · by_cases ho : old = []
+    · subst ho
+      exact absurd h1 (genuine_ne_zero env ge)
+    · exact Or.inr ⟨ho, by rw [h1, nodeKey_of_ne ho]⟩
+  · exact Or.inl (mem_delU.mpr ⟨he, h1⟩)
+
+/-- `interiorHash` at a node whose children are done -/
+theorem interior_inv (env : Env c Ht L) {h : Nat} {p : List Bool} {OK : Trie.Bytes → Prop} {un un2 : UN} {l' r' : T Trie.Bytes}
+    (old : Trie.Bytes) (m : Mid c Ht L h p OK un un2 l' r')
+    (cn : Canon h (.node l' r')) (v32 : Vals32 (.node l' r')) (hp : p.length + h = Ht) (cl : Closed c Ht L h p (.node l' r')) :
+    Inv c Ht L h p (OKn OK old) un (interiorU c (batchVal c) h p old l' r' un2) := by
+  have gr := root_genuine (c := c) (L := L) (t := .node l' r') (by simp) cn v32 hp cl
+  obtain ⟨h1, ccl⟩ := canon_child cn false
+  obtain ⟨_, ccr⟩ := canon_child cn true
+  have gl := pairsAt_genuine (c := c) (Ht := Ht) (L := L) l' (h - 1) (p ++ [false]) ccl v32.1 (by simp; omega) (cl.child false).1
+  have gR := pairsAt_genuine (c := c) (Ht := Ht) (L := L) r' (h - 1) (p ++ [true]) ccr v32.2 (by simp; omega) (cl.child true).1
+  -- an entry present after the children is present at the end, or has the old root's key
+  have keep : ∀ e, Genuine c Ht L e → e ∈ un2 →
+      e ∈ (interiorU c (batchVal c) h p old l' r' un2).2 ∨ (old ≠ [] ∧ e.1 = old) := by
+    intro e ge he
+    simp only [interiorU]
+    split
+    · exact keep_store env gr ge he
+    · exact Or.inl he
+  refine ⟨?_, ?_, ?_⟩
+  · intro e he
+    simp only [interiorU] at he
+    split at he
+    · rcases mem_storeNodeU he with rfl | h2
+      · exact Or.inr gr
+      · exact m.genuine e h2
+    · exact m.genuine e he
+  · intro kv hkv
+    simp only [interiorU, pairsAt, List.mem_append] at hkv
+    rcases hkv with hkv | hkv | hkv
+    · split at hkv
+      · rename_i h4
+        simp only [List.mem_singleton] at hkv
+        subst hkv
+        left
+        simp only [interiorU, if_pos h4]
+        exact storeNodeU_new un2 h p _ old (genuine_ne_zero env gr)
+      · simp at hkv
+    · rcases m.presL kv hkv with h2 | h2
+      · rcases keep kv (gl kv hkv).weaken h2 with h3 | h3
+        · exact Or.inl h3
+        · exact Or.inr (Or.inr h3)
+      · exact Or.inr (Or.inl h2)
+    · rcases m.presR kv hkv with h2 | h2
+      · rcases keep kv (gR kv hkv).weaken h2 with h3 | h3
+        · exact Or.inl h3
+        · exact Or.inr (Or.inr h3)
+      · exact Or.inr (Or.inl h2)
+  · intro e he ge
+    rcases m.frame e he ge with h2 | h2 | h2 | h2
+    · rcases keep e ge h2 with h3 | h3
+      · exact Or.inl h3
+      · exact Or.inr (Or.inl (Or.inr h3))
+    · exact Or.inr (Or.inl (Or.inl h2))
+    · right; right
+      simp only [LeafK, List.mem_map] at h2 ⊢
+      obtain ⟨x, hx, ex⟩ := h2
+      exact ⟨x, (leafStrs_node p l' r' x).mpr (Or.inl hx), ex⟩
+    · right; right
+      simp only [LeafK, List.mem_map] at h2 ⊢
+      obtain ⟨x, hx, ex⟩ := h2
+      exact ⟨x, (leafStrs_node p l' r' x).mpr (Or.inr hx), ex⟩
+
+theorem leafK_moved (p : List Bool) (b : Bool) (k : List Bool) (v : Trie.Bytes) :
+    LeafK c Ht (p ++ [b]) (.leaf k v) = LeafK c Ht p (.leaf (b :: k) v) := by
+  simp [LeafK, leafStrs, leavesOf]
+
+theorem leafK_empty (p : List Bool) : LeafK c Ht p (.empty : T Trie.Bytes) = [] := rfl
+
+/-- `moveUpShortcut`: the child shortcut on side `b` takes the node's place -/
+theorem shortcutUp_inv (env : Env c Ht L) {h : Nat} {p : List Bool} {OK : Trie.Bytes → Prop} {un un2 : UN}
+    (old : Trie.Bytes) (b : Bool) (k : List Bool) (v : Trie.Bytes)
+    (gen2 : ∀ e ∈ un2, e ∈ un ∨ Genuine c Ht L e)
+    (frame2 : ∀ e ∈ un, Genuine c Ht L e → e ∈ un2 ∨ OK e.1 ∨ e.1 ∈ LeafK c Ht (p ++ [b]) (.leaf k v))
+    (h1 : 1 ≤ h) (cn : Canon h (.leaf (b :: k) v)) (v32 : Vals32 (.leaf (b :: k) v)) (hp : p.length + h = Ht)
+    (cl : Closed c Ht L h p (.leaf (b :: k) v)) :
+    Inv c Ht L h p (OKn OK old) un (shortcutUpU c (batchVal c) h p old b k v un2) := by
+  have gr := root_genuine (c := c) (L := L) (t := .leaf (b :: k) v) (by simp) cn v32 hp cl
+  have hchild : hashT c (h - 1) (p ++ [b]) (.leaf k v) ∈ LeafK c Ht p (.leaf (b :: k) v) := by
+    simp only [LeafK, leafStrs, leavesOf, List.flatMap_cons, List.flatMap_nil, List.append_nil, List.map_map, List.mem_map,
+      List.mem_range, Function.comp]
+    exact ⟨h - 1, by omega, by simp [hashT]⟩
+  have hcne : hashT c (h - 1) (p ++ [b]) (.leaf k v) ≠ [] := by
+    intro e
+    have := env.ok.outLen (c.enc (p ++ [b] ++ k) ++ v ++ [byteOf (h - 1)])
+    simp only [hashT] at e
+    rw [e] at this
+    simp at this
+  have keep : ∀ e, Genuine c Ht L e → e ∈ un2 →
+      e ∈ (shortcutUpU c (batchVal c) h p old b k v un2).2 ∨ (old ≠ [] ∧ e.1 = old) ∨ e.1 ∈ LeafK c Ht p (.leaf (b :: k) v) := by
+    intro e ge he
+    simp only [shortcutUpU]
+    split
+    · rcases keep_store env gr ge he with h2 | h2
+      · exact Or.inl h2
+      · exact Or.inr (Or.inl h2)
+    · split
+      · by_cases h2 : e.1 = nodeKey (hashT c (h - 1) (p ++ [b]) (.leaf k v))
+        · right; right
+          rw [h2, nodeKey_of_ne hcne]
+          exact hchild
+        · exact Or.inl (mem_delU.mpr ⟨he, h2⟩)
+      · exact Or.inl he
+  refine ⟨?_, ?_, ?_⟩
+  · intro e he
+    simp only [shortcutUpU] at he
+    split at he
+    · rcases mem_storeNodeU he with rfl | h2
+      · exact Or.inr gr
+      · exact gen2 e h2
+    · split at he
+      · exact gen2 e (mem_delU.mp he).1
+      · exact gen2 e he
+  · intro kv hkv
+    simp only [shortcutUpU, pairsAt] at hkv
+    split at hkv
+    · rename_i h4
+      simp only [List.mem_singleton] at hkv
+      subst hkv
+      left
+      simp only [shortcutUpU, if_pos h4]
+      exact storeNodeU_new un2 h p _ old (genuine_ne_zero env gr)
+    · simp at hkv
+  · intro e he ge
+    rcases frame2 e he ge with h2 | h2 | h2
+    · rcases keep e ge h2 with h3 | h3 | h3
+      · exact Or.inl h3
+      · exact Or.inr (Or.inl (Or.inr h3))
+      · exact Or.inr (Or.inr h3)
+    · exact Or.inr (Or.inl (Or.inl h2))
+    · right; right
+      show e.1 ∈ LeafK c Ht p (.leaf (b :: k) v)
+      rw [← leafK_moved]; exact h2
+
+/-- `maybeMoveUpShortcut` / `interiorHash` at a node whose children are done -/
+theorem moveUp_inv (env : Env c Ht L) {h : Nat} {p : List Bool} {OK : Trie.Bytes → Prop} {un un2 : UN} {l' r' : T Trie.Bytes}
+    (old : Trie.Bytes) (m : Mid c Ht L h p OK un un2 l' r') (h1 : 1 ≤ h)
+    (cn : Canon h (moveUp l' r').1) (v32 : Vals32 (moveUp l' r').1) (hp : p.length + h = Ht)
+    (cl : Closed c Ht L h p (moveUp l' r').1) :
+    Inv c Ht L h p (OKn OK old) un (moveUpU c (batchVal c) h p old l' r' un2) := by
+  cases l' with
+  | empty =>
+    cases r' with
+    | empty =>
+      refine ⟨?_, ?_, ?_⟩
+      · intro e he
+        simp only [moveUpU] at he
+        split at he
+        · exact m.genuine e (mem_delU.mp he).1
+        · exact m.genuine e he
+      · intro kv hkv; simp [moveUpU, pairsAt] at hkv
+      · intro e he ge
+        rcases m.frame e he ge with h2 | h2 | h2 | h2
+        · simp only [moveUpU]
+          split
+          · rcases keep_del env (old := old) ge h2 with h3 | h3
+            · exact Or.inl h3
+            · exact Or.inr (Or.inl (Or.inr h3))
+          · exact Or.inl h2
+        · exact Or.inr (Or.inl (Or.inl h2))
+        · simp [leafK_empty] at h2
+        · simp [leafK_empty] at h2
+    | leaf k v =>
+      refine shortcutUp_inv env old true k v m.genuine ?_ h1 cn v32 hp cl
+      intro e he ge
+      rcases m.frame e he ge with h2 | h2 | h2 | h2
+      · exact Or.inl h2
+      · exact Or.inr (Or.inl h2)
+      · simp [leafK_empty] at h2
+      · exact Or.inr (Or.inr h2)
+    | node a b => exact interior_inv env old m cn v32 hp cl
+  | leaf k v =>
+    cases r' with
+    | empty =>
+      refine shortcutUp_inv env old false k v m.genuine ?_ h1 cn v32 hp cl
+      intro e he ge
+      rcases m.frame e he ge with h2 | h2 | h2 | h2
+      · exact Or.inl h2
+      · exact Or.inr (Or.inl h2)
+      · exact Or.inr (Or.inr h2)
+      · simp [leafK_empty] at h2
+    | leaf k' v' => exact interior_inv env old m cn v32 hp cl
+    | node a b => exact interior_inv env old m cn v32 hp cl
+  | node a b =>
+    cases r' with
+    | empty => exact interior_inv env old m cn v32 hp cl
+    | leaf k' v' => exact interior_inv env old m cn v32 hp cl
+    | node a' b' => exact interior_inv env old m cn v32 hp cl
+
+/-- the values a batch writes are 32 bytes long -/
+def KV32 (kvs : List (KV Trie.Bytes)) : Prop := ∀ kv ∈ kvs, ∀ v, kv.2 = some v → v.length = 32
+
+theorem KV32.tails {kvs : List (KV Trie.Bytes)} (k : KV32 kvs) : KV32 (tails kvs) := by
+  intro kv hkv v hv
+  simp only [Trie.tails, List.mem_map] at hkv
+  obtain ⟨kv', m, rfl⟩ := hkv
+  exact k kv' m v hv
+
+theorem KV32.sublist {l l' : List (KV Trie.Bytes)} (k : KV32 l) (s : l'.Sublist l) : KV32 l' :=
+  fun kv hkv => k kv (s.subset hkv)
+
+theorem closed_empty (h : Nat) (p : List Bool) : Closed c Ht L h p (.empty : T Trie.Bytes) :=
+  ⟨by simp [hashedT], by simp [leafStrs, leavesOf]⟩
+
+/-- the children of what `moveUp` returns are closed when the result is -/
+theorem closed_of_moveUp {h : Nat} {p : List Bool} {l' r' : T Trie.Bytes} (h1 : 1 ≤ h) (hle : h ≤ Ht)
+    (cl : Closed c Ht L h p (moveUp l' r').1) :
+    Closed c Ht L (h - 1) (p ++ [false]) l' ∧ Closed c Ht L (h - 1) (p ++ [true]) r' := by
+  cases l' with
+  | empty =>
+    cases r' with
+    | empty => exact ⟨closed_empty _ _, closed_empty _ _⟩
+    | leaf k v => exact ⟨closed_empty _ _, Closed.moved h1 hle cl⟩
+    | node a b => exact ⟨cl.child false, cl.child true⟩
+  | leaf k v =>
+    cases r' with
+    | empty => exact ⟨Closed.moved h1 hle cl, closed_empty _ _⟩
+    | leaf k' v' => exact ⟨cl.child false, cl.child true⟩
+    | node a b => exact ⟨cl.child false, cl.child true⟩
+  | node a b =>
+    cases r' with
+    | empty => exact ⟨cl.child false, cl.child true⟩
+    | leaf k' v' => exact ⟨cl.child false, cl.child true⟩
+    | node a' b' => exact ⟨cl.child false, cl.child true⟩
+
+/-- both children were updated, the left one first -/
+theorem mid_both (env : Env c Ht L) {h : Nat} {p : List Bool} {OKl OKr : Trie.Bytes → Prop} {un : UN} {resL resR : ResU}
+    (iL : Inv c Ht L (h - 1) (p ++ [false]) OKl un resL) (iR : Inv c Ht L (h - 1) (p ++ [true]) OKr resL.2 resR)
+    (h1 : 1 ≤ h) (hp : p.length + h = Ht)
+    (cl' : Canon (h - 1) resL.1.1) (vl' : Vals32 resL.1.1) (cll : Closed c Ht L (h - 1) (p ++ [false]) resL.1.1)
+    (cr' : Canon (h - 1) resR.1.1) (vr' : Vals32 resR.1.1) (clr : Closed c Ht L (h - 1) (p ++ [true]) resR.1.1) :
+    Mid c Ht L h p (fun k => OKl k ∨ OKr k) un resR.2 resL.1.1 resR.1.1 := by
+  have hpl : (p ++ [false]).length + (h - 1) = Ht := by simp; omega
+  have hpr : (p ++ [true]).length + (h - 1) = Ht := by simp; omega
+  refine ⟨?_, ?_, ?_, ?_⟩
+  · intro e he
+    rcases iR.genuine e he with h2 | h2
+    · exact iL.genuine e h2
+    · exact Or.inr h2
+  · intro kv hkv
+    rcases iL.present kv hkv with h2 | h2
+    · have gu := pairsAt_genuine (c := c) (Ht := Ht) (L := L) _ (h - 1) (p ++ [false]) cl' vl' hpl cll.1 kv hkv
+      rcases iR.frame kv h2 gu.weaken with h3 | h3 | h3
+      · exact Or.inl h3
+      · exact Or.inr (Or.inr h3)
+      · exact (disjoint_sides env (b := false) gu cr' vr' hpr clr.2 h3).elim
+    · exact Or.inr (Or.inl h2)
+  · intro kv hkv
+    rcases iR.present kv hkv with h2 | h2
+    · exact Or.inl h2
+    · exact Or.inr (Or.inr h2)
+  · intro e he ge
+    rcases iL.frame e he ge with h2 | h2 | h2
+    · rcases iR.frame e h2 ge with h3 | h3 | h3
+      · exact Or.inl h3
+      · exact Or.inr (Or.inl (Or.inr h3))
+      · exact Or.inr (Or.inr (Or.inr h3))
+    · exact Or.inr (Or.inl (Or.inl h2))
+    · exact Or.inr (Or.inr (Or.inl h2))
+
+/-- only the right child was updated -/
+theorem mid_right {h : Nat} {p : List Bool} {OKr : Trie.Bytes → Prop} {un : UN} {l : T Trie.Bytes} {resR : ResU}
+    (iR : Inv c Ht L (h - 1) (p ++ [true]) OKr un resR) :
+    Mid c Ht L h p (fun k => k ∈ (pairsAt c (h - 1) (p ++ [false]) l).map (·.1) ∨ OKr k) un resR.2 l resR.1.1 := by
+  refine ⟨iR.genuine, ?_, ?_, ?_⟩
+  · intro kv hkv
+    exact Or.inr (Or.inl (List.mem_map_of_mem hkv))
+  · intro kv hkv
+    exact (iR.present kv hkv).imp_right Or.inr
+  · intro e he ge
+    rcases iR.frame e he ge with h2 | h2 | h2
+    · exact Or.inl h2
+    · exact Or.inr (Or.inl (Or.inr h2))
+    · exact Or.inr (Or.inr (Or.inr h2))
+
+/-- only the left child was updated -/
+theorem mid_left {h : Nat} {p : List Bool} {OKl : Trie.Bytes → Prop} {un : UN} {r : T Trie.Bytes} {resL : ResU}
+    (iL : Inv c Ht L (h - 1) (p ++ [false]) OKl un resL) :
+    Mid c Ht L h p (fun k => OKl k ∨ k ∈ (pairsAt c (h - 1) (p ++ [true]) r).map (·.1)) un resL.2 resL.1.1 r := by
+  refine ⟨iL.genuine, ?_, ?_, ?_⟩
+  · intro kv hkv
+    exact (iL.present kv hkv).imp_right Or.inl
+  · intro kv hkv
+    exact Or.inr (Or.inr (List.mem_map_of_mem hkv))
+  · intro e he ge
+    rcases iL.frame e he ge with h2 | h2 | h2
+    · exact Or.inl h2
+    · exact Or.inr (Or.inl (Or.inl h2))
+    · exact Or.inr (Or.inr (Or.inl h2))
+
+/-- what is known of the recursive calls one level down (below the node at height `h`, path `p`) -/
+structure ChildSpec (c : HashCtx) (Ht : Nat) (L : List Trie.Bytes) (h : Nat) (p : List Bool)
+    (upd : Bool → T Trie.Bytes → List (KV Trie.Bytes) → UN → ResU)
+    (updT : T Trie.Bytes → List (KV Trie.Bytes) → T Trie.Bytes × Bool) : Prop where
+  tree : ∀ b t kvs un, (upd b t kvs un).1 = updT t kvs
+  good : ∀ t kvs, Canon (h - 1) t → Trie.WF (h - 1) kvs → kvs ≠ [] → Good (h - 1) t kvs (updT t kvs)
+  vals : ∀ t kvs, Canon (h - 1) t → Vals32 t → Trie.WF (h - 1) kvs → kvs ≠ [] → KV32 kvs → Vals32 (updT t kvs).1
+  inv : ∀ b t kvs un, Canon (h - 1) t → Vals32 t → Trie.WF (h - 1) kvs → kvs ≠ [] → KV32 kvs →
+    Closed c Ht L (h - 1) (p ++ [b]) (updT t kvs).1 →
+    Inv c Ht L (h - 1) (p ++ [b]) (fun k => k ∈ (pairsAt c (h - 1) (p ++ [b]) t).map (·.1)) un (upd b t kvs un)
+
+/-- old keys of the two children -/
+def OKc (c : HashCtx) (h : Nat) (p : List Bool) (l r : T Trie.Bytes) : Trie.Bytes → Prop :=
+  fun k => k ∈ (pairsAt c (h - 1) (p ++ [false]) l).map (·.1) ∨ k ∈ (pairsAt c (h - 1) (p ++ [true]) r).map (·.1)
+
+theorem splitCoreU_inv (env : Env c Ht L) {h : Nat} {p : List Bool} (old : Trie.Bytes)
+    {upd : Bool → T Trie.Bytes → List (KV Trie.Bytes) → UN → ResU}
+    {updT : T Trie.Bytes → List (KV Trie.Bytes) → T Trie.Bytes × Bool}
+    (cs : ChildSpec c Ht L h p upd updT) (h1 : 1 ≤ h) (hp : p.length + h = Ht)
+    {l r : T Trie.Bytes} (cl : Canon (h - 1) l) (cr : Canon (h - 1) r) (vl : Vals32 l) (vr : Vals32 r)
+    (lk rk : List (KV Trie.Bytes)) (wl : Trie.WF (h - 1) (tails lk)) (wr : Trie.WF (h - 1) (tails rk))
+    (kl : KV32 lk) (kr : KV32 rk) (hne : lk ≠ [] ∨ rk ≠ []) (un : UN)
+    (cn' : Canon h (splitCore updT l r lk rk).1) (vn' : Vals32 (splitCore updT l r lk rk).1)
+    (cl' : Closed c Ht L h p (splitCore updT l r lk rk).1) :
+    Inv c Ht L h p (OKn (OKc c h p l r) old) un (splitCoreU c (batchVal c) h p old upd l r lk rk un) := by
+  have hle : h ≤ Ht := by omega
+  match lk, rk, hne with
+  | [], y :: ys, _ =>
+    have ne : tails (y :: ys) ≠ [] := tails_ne_nil (by simp)
+    rcases hx : upd true r (tails (y :: ys)) un with ⟨⟨r', d⟩, un1⟩
+    have e : updT r (tails (y :: ys)) = (r', d) := by rw [← cs.tree true r _ un, hx]
+    have iR := cs.inv true r (tails (y :: ys)) un cr vr wr ne kr.tails
+    rw [hx, e] at iR
+    simp only [splitCore, e] at cn' vn' cl'
+    simp only [splitCoreU, hx]
+    cases d with
+    | true =>
+      simp only [↓reduceIte] at cn' vn' cl' ⊢
+      have m := mid_right (l := l) (iR (closed_of_moveUp h1 hle cl').2)
+      exact moveUp_inv env old m h1 cn' vn' hp cl'
+    | false =>
+      simp only [Bool.false_eq_true, ↓reduceIte] at cn' vn' cl' ⊢
+      have m := mid_right (l := l) (iR (cl'.child true))
+      exact interior_inv env old m cn' vn' hp cl'
+  | x :: xs, [], _ =>
+    have ne : tails (x :: xs) ≠ [] := tails_ne_nil (by simp)
+    rcases hx : upd false l (tails (x :: xs)) un with ⟨⟨l', d⟩, un1⟩
+    have e : updT l (tails (x :: xs)) = (l', d) := by rw [← cs.tree false l _ un, hx]
+    have iL := cs.inv false l (tails (x :: xs)) un cl vl wl ne kl.tails
+    rw [hx, e] at iL
+    simp only [splitCore, e] at cn' vn' cl'
+    simp only [splitCoreU, hx]
+    cases d with
+    | true =>
+      simp only [↓reduceIte] at cn' vn' cl' ⊢
+      have m := mid_left (r := r) (iL (closed_of_moveUp h1 hle cl').1)
+      exact moveUp_inv env old m h1 cn' vn' hp cl'
+    | false =>
+      simp only [Bool.false_eq_true, ↓reduceIte] at cn' vn' cl' ⊢
+      have m := mid_left (r := r) (iL (cl'.child false))
+      exact interior_inv env old m cn' vn' hp cl'
+  | x :: xs, y :: ys, _ =>
+    have nel : tails (x :: xs) ≠ [] := tails_ne_nil (by simp)
+    have ner : tails (y :: ys) ≠ [] := tails_ne_nil (by simp)
+    rcases hx : upd false l (tails (x :: xs)) un with ⟨⟨l', dl⟩, un1⟩
+    have e1 : updT l (tails (x :: xs)) = (l', dl) := by rw [← cs.tree false l _ un, hx]
+    rcases hy : upd true r (tails (y :: ys)) un1 with ⟨⟨r', dr⟩, un2⟩
+    have e2 : updT r (tails (y :: ys)) = (r', dr) := by rw [← cs.tree true r _ un1, hy]
+    have iL := cs.inv false l (tails (x :: xs)) un cl vl wl nel kl.tails
+    have iR := cs.inv true r (tails (y :: ys)) un1 cr vr wr ner kr.tails
+    rw [hx, e1] at iL
+    rw [hy, e2] at iR
+    have gl := cs.good l (tails (x :: xs)) cl wl nel
+    have gr := cs.good r (tails (y :: ys)) cr wr ner
+    have v1 := cs.vals l (tails (x :: xs)) cl vl wl nel kl.tails
+    have v2 := cs.vals r (tails (y :: ys)) cr vr wr ner kr.tails
+    rw [e1] at gl v1
+    rw [e2] at gr v2
+    simp only [splitCore, e1, e2] at cn' vn' cl'
+    simp only [splitCoreU, hx, hy]
+    cases hd : (dl || dr) with
+    | true =>
+      simp only [hd, ↓reduceIte] at cn' vn' cl' ⊢
+      obtain ⟨c1, c2⟩ := closed_of_moveUp h1 hle cl'
+      have m := mid_both env (resL := ((l', dl), un1)) (resR := ((r', dr), un2)) (iL c1) (iR c2) h1 hp gl.canon v1 c1 gr.canon v2 c2
+      exact moveUp_inv env old m h1 cn' vn' hp cl'
+    | false =>
+      simp only [hd, Bool.false_eq_true, ↓reduceIte] at cn' vn' cl' ⊢
+      have c1 := cl'.child false
+      have c2 := cl'.child true
+      have m := mid_both env (resL := ((l', dl), un1)) (resR := ((r', dr), un2)) (iL c1) (iR c2) h1 hp gl.canon v1 c1 gr.canon v2 c2
+      exact interior_inv env old m cn' vn' hp cl'
+
+theorem vals32_get : ∀ (t : T Trie.Bytes) (k : List Bool) (v : Trie.Bytes), Vals32 t → get t k = some v → v.length = 32 := by
+  intro t
+  induction t with
+  | empty => intro k v _ e; simp [Trie.get] at e
+  | leaf sk sv =>
+    intro k v w e
+    simp only [Trie.get] at e
+    split at e
+    · simp only [Option.some.injEq] at e; subst e; exact w
+    · simp at e
+  | node l r ihl ihr =>
+    intro k v w e
+    cases k with
+    | nil => simp [Trie.get] at e
+    | cons b k =>
+      simp only [Trie.get] at e
+      cases b
+      · exact ihl k v w.1 (by simpa using e)
+      · exact ihr k v w.2 (by simpa using e)
+
+/-- `update` keeps the values 32 bytes long -/
+theorem update_vals32 {h : Nat} {t : T Trie.Bytes} {kvs : List (KV Trie.Bytes)} (cn : Canon h t) (v32 : Vals32 t)
+    (w : Trie.WF h kvs) (hne : kvs ≠ []) (k32 : KV32 kvs) : Vals32 (update h t kvs).1 := by
+  have g := update_good h t kvs cn w hne
+  refine vals32_of_get _ h g.canon fun k v hk e => ?_
+  rw [g.sem k hk] at e
+  simp only [applyF] at e
+  cases hl : look kvs k with
+  | none => rw [hl] at e; exact vals32_get t k v v32 e
+  | some ov =>
+    rw [hl] at e
+    simp only at e
+    exact k32 (k, ov) (look_mem kvs k ov hl) v e
+
+theorem inv_trivial {h : Nat} {p : List Bool} {OK : Trie.Bytes → Prop} (un : UN) (d : Bool) :
+    Inv c Ht L h p OK un ((.empty, d), un) :=
+  ⟨fun e he => Or.inl he, fun kv hkv => by simp [pairsAt] at hkv, fun e he _ => Or.inl he⟩
+
+/-- a single new shortcut stored at a node -/
+theorem leafStore_inv (env : Env c Ht L) {h : Nat} {p : List Bool} {OK : Trie.Bytes → Prop} (un : UN) (old : Trie.Bytes)
+    (k : List Bool) (v : Trie.Bytes) (cn : Canon h (.leaf k v)) (v32 : Vals32 (.leaf k v)) (hp : p.length + h = Ht)
+    (cl : Closed c Ht L h p (.leaf k v)) :
+    Inv c Ht L h p (OKn OK old) un
+      ((.leaf k v, false), if h % 4 = 0 then storeNodeU c (batchVal c) un h p (.leaf k v) old else un) := by
+  have gr := root_genuine (c := c) (L := L) (t := .leaf k v) (by simp) cn v32 hp cl
+  refine ⟨?_, ?_, ?_⟩
+  · intro e he
+    simp only at he
+    split at he
+    · rcases mem_storeNodeU he with rfl | h2
+      · exact Or.inr gr
+      · exact Or.inl h2
+    · exact Or.inl he
+  · intro kv hkv
+    simp only [pairsAt] at hkv
+    split at hkv
+    · rename_i h4
+      simp only [List.mem_singleton] at hkv
+      subst hkv
+      left
+      simp only [if_pos h4]
+      exact storeNodeU_new un h p _ old (genuine_ne_zero env gr)
+    · simp at hkv
+  · intro e he ge
+    simp only
+    split
+    · rcases keep_store env gr ge he with h2 | h2
+      · exact Or.inl h2
+      · exact Or.inr (Or.inl (Or.inr h2))
+    · exact Or.inl he
+
+theorem splitU_inv (env : Env c Ht L) {h : Nat} {p : List Bool} (old : Trie.Bytes)
+    {upd : Bool → T Trie.Bytes → List (KV Trie.Bytes) → UN → ResU}
+    {updT : T Trie.Bytes → List (KV Trie.Bytes) → T Trie.Bytes × Bool}
+    (cs : ChildSpec c Ht L (h + 1) p upd updT) (hp : p.length + (h + 1) = Ht)
+    {l r : T Trie.Bytes} (cl : Canon h l) (cr : Canon h r) (vl : Vals32 l) (vr : Vals32 r)
+    (kvs : List (KV Trie.Bytes)) (w : Trie.WF (h + 1) kvs) (hne : kvs ≠ []) (k32 : KV32 kvs) (un : UN)
+    (cn' : Canon (h + 1) (split updT l r kvs).1) (vn' : Vals32 (split updT l r kvs).1)
+    (cl' : Closed c Ht L (h + 1) p (split updT l r kvs).1) :
+    Inv c Ht L (h + 1) p (OKn (OKc c (h + 1) p l r) old) un (splitU c (batchVal c) (h + 1) p old upd l r kvs un) := by
+  have general : split updT l r kvs = splitGen updT l r kvs →
+      splitU c (batchVal c) (h + 1) p old upd l r kvs un =
+        splitCoreU c (batchVal c) (h + 1) p old upd l r (lkeys kvs) (rkeys kvs) un →
+      Inv c Ht L (h + 1) p (OKn (OKc c (h + 1) p l r) old) un (splitU c (batchVal c) (h + 1) p old upd l r kvs un) := by
+    intro e1 e2
+    rw [e2]
+    rw [e1] at cn' vn' cl'
+    have wl : Trie.WF (h + 1) (lkeys kvs) := w.sublist (List.takeWhile_sublist _)
+    have wr : Trie.WF (h + 1) (rkeys kvs) := w.sublist (List.dropWhile_sublist _)
+    have wtl : Trie.WF h (tails (lkeys kvs)) := tails_wf wl lkeys_head
+    have wtr : Trie.WF h (tails (rkeys kvs)) := tails_wf wr (rkeys_head w)
+    have happ := lkeys_append_rkeys kvs
+    have hne' : lkeys kvs ≠ [] ∨ rkeys kvs ≠ [] := by
+      by_cases h1 : lkeys kvs = []
+      · right; intro h2; rw [h1, h2] at happ; exact hne happ.symm
+      · exact Or.inl h1
+    exact splitCoreU_inv env old cs (by omega) hp cl cr vl vr (lkeys kvs) (rkeys kvs) wtl wtr
+      (k32.sublist (List.takeWhile_sublist _)) (k32.sublist (List.dropWhile_sublist _)) hne' un cn' vn' cl'
+  by_cases hE : l = .empty ∧ r = .empty
+  · obtain ⟨rfl, rfl⟩ := hE
+    match kvs, hne with
+    | [(k, some v)], _ => exact leafStore_inv env un old k v cn' vn' hp cl'
+    | [(k, none)], _ => exact inv_trivial un true
+    | (k, none) :: y :: ys, _ => exact general rfl rfl
+    | (k, some v) :: y :: ys, _ => exact general rfl rfl
+  · refine general ?_ ?_
+    · unfold split
+      split
+      · exact absurd ⟨rfl, rfl⟩ hE
+      · exact absurd ⟨rfl, rfl⟩ hE
+      · rfl
+    · unfold splitU
+      split
+      · exact absurd ⟨rfl, rfl⟩ hE
+      · exact absurd ⟨rfl, rfl⟩ hE
+      · rfl
+
+/-- old keys of a subtree -/
+def OKt (c : HashCtx) (h : Nat) (p : List Bool) (t : T Trie.Bytes) : Trie.Bytes → Prop :=
+  fun k => k ∈ (pairsAt c h p t).map (·.1)
+
+theorem oldRoot_mem {h : Nat} {p : List Bool} {t : T Trie.Bytes} (h4 : h % 4 = 0) (hne : oldRoot c h p t ≠ []) :
+    OKt c h p t (oldRoot c h p t) := by
+  cases t with
+  | empty => simp [oldRoot] at hne
+  | leaf k v => simp [OKt, pairsAt, h4, oldRoot]
+  | node l r => simp [OKt, pairsAt, h4, oldRoot]
+
+/-- **The invariant of `updU`**, at every height, on every canonical subtree and legal batch. -/
+theorem updU_inv (env : Env c Ht L) : ∀ (h : Nat) (p : List Bool) (t : T Trie.Bytes) (kvs : List (KV Trie.Bytes)) (un : UN),
+    Canon h t → Vals32 t → Trie.WF h kvs → kvs ≠ [] → KV32 kvs → p.length + h = Ht →
+    Closed c Ht L h p (update h t kvs).1 →
+    Inv c Ht L h p (OKt c h p t) un (updU c (batchVal c) h p t kvs un) := by
+  intro h
+  induction h with
+  | zero =>
+    intro p t kvs un cn v32 w hne k32 hp cl
+    have hlen := w.zero_length
+    match kvs, hne, hlen with
+    | [(k, ov)], _, _ =>
+      have hk : k = [] := List.length_eq_zero_iff.mp (w.1 (k, ov) (by simp))
+      subst hk
+      cases ov with
+      | some v =>
+        have vv : v.length = 32 := k32 ([], some v) (by simp) v rfl
+        have i := leafStore_inv (OK := fun _ => False) env un (oldRoot c 0 p t) [] v (by simp [Canon]) vv hp
+          (by simpa [update] using cl)
+        simp only [Nat.zero_mod, ↓reduceIte] at i
+        refine Inv.mono (show Inv c Ht L 0 p _ un (updU c (batchVal c) 0 p t [([], some v)] un) from i) ?_
+        rintro k (hf | ⟨h1, rfl⟩)
+        · exact hf.elim
+        · exact oldRoot_mem rfl h1
+      | none =>
+        refine ⟨?_, ?_, ?_⟩
+        · intro e he
+          exact Or.inl (mem_delU.mp he).1
+        · intro kv hkv; simp [updU, pairsAt] at hkv
+        · intro e he ge
+          rcases keep_del env (old := oldRoot c 0 p t) ge he with h2 | ⟨h2, h3⟩
+          · exact Or.inl h2
+          · exact Or.inr (Or.inl (by rw [h3]; exact oldRoot_mem rfl h2))
+  | succ h ih =>
+    intro p t kvs un cn v32 w hne k32 hp cl
+    have cs : ChildSpec c Ht L (h + 1) p (fun b => updU c (batchVal c) h (p ++ [b])) (update h) :=
+      { tree := fun b t kvs un => updU_tree (batchVal c) h (p ++ [b]) t kvs un
+        good := fun t kvs cn w hne => update_good h t kvs cn w hne
+        vals := fun t kvs cn v w hne k => update_vals32 cn v w hne k
+        inv := fun b t kvs un cn v w hne k cl => ih (p ++ [b]) t kvs un cn v w hne k (by simp; omega) cl }
+    have g := update_good (h + 1) t kvs cn w hne
+    have vres := update_vals32 cn v32 w hne k32
+    cases t with
+    | empty =>
+      have i := splitU_inv env (if (h + 1) % 4 = 0 then oldRoot c (h + 1) p .empty else []) cs hp (l := .empty) (r := .empty)
+        (by simp [Canon]) (by simp [Canon]) trivial trivial kvs w hne k32 un g.canon vres cl
+      refine Inv.mono (show Inv c Ht L (h + 1) p _ un (updU c (batchVal c) (h + 1) p .empty kvs un) from i) ?_
+      rintro k ((hf | hf) | ⟨h1, _⟩)
+      · simp [pairsAt] at hf
+      · simp [pairsAt] at hf
+      · simp [oldRoot] at h1
+    | leaf sk sv =>
+      have hsk : sk.length = h + 1 := cn
+      have e1 : addShortcut kvs sk sv = addSc sk sv kvs := addShortcut_eq sk sv kvs w hne
+      have w' : Trie.WF (h + 1) (addSc sk sv kvs) := addSc_wf sv w hsk
+      have k32' : KV32 (addSc sk sv kvs) := by
+        intro kv hkv v hv
+        rcases mem_addSc hkv with e | m
+        · subst e; simp only [Option.some.injEq] at hv; subst hv; exact v32
+        · exact k32 kv m v hv
+      -- what `deleteOldNode(root)` at a batch root does to the entries recorded so far
+      have pre : ∀ e ∈ un, Genuine c Ht L e →
+          e ∈ (if (h + 1) % 4 = 0 then delU un (if (h + 1) % 4 = 0 then oldRoot c (h + 1) p (.leaf sk sv) else []) else un) ∨
+            OKt c (h + 1) p (.leaf sk sv) e.1 := by
+        intro e he ge
+        by_cases h4 : (h + 1) % 4 = 0
+        · simp only [h4, ↓reduceIte]
+          rcases keep_del env (old := oldRoot c (h + 1) p (.leaf sk sv)) ge he with h2 | ⟨h2, h3⟩
+          · exact Or.inl h2
+          · exact Or.inr (by rw [h3]; exact oldRoot_mem h4 h2)
+        · simp only [h4, ↓reduceIte]; exact Or.inl he
+      have sub : ∀ e ∈ (if (h + 1) % 4 = 0 then delU un (if (h + 1) % 4 = 0 then oldRoot c (h + 1) p (.leaf sk sv) else []) else un),
+          e ∈ un := by
+        intro e he
+        split at he
+        · exact (mem_delU.mp he).1
+        · exact he
+      simp only [update, e1] at g vres cl
+      simp only [updU, e1]
+      cases hE : (addSc sk sv kvs).isEmpty with
+      | true =>
+        simp only [↓reduceIte]
+        refine ⟨fun e he => Or.inl (sub e he), fun kv hkv => by simp [pairsAt] at hkv, fun e he ge => ?_⟩
+        rcases pre e he ge with h2 | h2
+        · exact Or.inl h2
+        · exact Or.inr (Or.inl h2)
+      | false =>
+        have hne' : addSc sk sv kvs ≠ [] := by intro e; rw [e] at hE; simp at hE
+        simp only [hE, Bool.false_eq_true, ↓reduceIte] at g vres cl ⊢
+        have i := splitU_inv env (if (h + 1) % 4 = 0 then oldRoot c (h + 1) p (.leaf sk sv) else []) cs hp (l := .empty) (r := .empty)
+          (by simp [Canon]) (by simp [Canon]) trivial trivial (addSc sk sv kvs) w' hne' k32'
+          (if (h + 1) % 4 = 0 then delU un (if (h + 1) % 4 = 0 then oldRoot c (h + 1) p (.leaf sk sv) else []) else un)
+          g.canon vres cl
+        have okm : ∀ k, OKn (OKc c (h + 1) p .empty .empty) (if (h + 1) % 4 = 0 then oldRoot c (h + 1) p (.leaf sk sv) else []) k →
+            OKt c (h + 1) p (.leaf sk sv) k := by
+          rintro k ((hf | hf) | ⟨h1, rfl⟩)
+          · simp [pairsAt] at hf
+          · simp [pairsAt] at hf
+          · by_cases h4 : (h + 1) % 4 = 0
+            · simp only [h4, ↓reduceIte] at h1 ⊢
+              exact oldRoot_mem h4 h1
+            · simp [h4] at h1
+        refine ⟨?_, ?_, ?_⟩
+        · intro e he
+          rcases i.genuine e he with h2 | h2
+          · exact Or.inl (sub e h2)
+          · exact Or.inr h2
+        · intro kv hkv
+          exact (i.present kv hkv).imp_right (okm _)
+        · intro e he ge
+          rcases pre e he ge with h2 | h2
+          · rcases i.frame e h2 ge with h3 | h3 | h3
+            · exact Or.inl h3
+            · exact Or.inr (Or.inl (okm _ h3))
+            · exact Or.inr (Or.inr h3)
+          · exact Or.inr (Or.inl h2)
+    | node l r =>
+      obtain ⟨cl0, cr0, _, _⟩ := cn
+      have i := splitU_inv env (if (h + 1) % 4 = 0 then oldRoot c (h + 1) p (.node l r) else []) cs hp cl0 cr0 v32.1 v32.2
+        kvs w hne k32 un g.canon vres cl
+      refine Inv.mono (show Inv c Ht L (h + 1) p _ un (updU c (batchVal c) (h + 1) p (.node l r) kvs un) from i) ?_
+      rintro k ((hf | hf) | ⟨h1, rfl⟩)
+      · simp only [OKt, pairsAt, List.map_append, List.mem_append]
+        exact Or.inr (Or.inl (by simpa using hf))
+      · simp only [OKt, pairsAt, List.map_append, List.mem_append]
+        exact Or.inr (Or.inr (by simpa using hf))
+      · by_cases h4 : (h + 1) % 4 = 0
+        · simp only [h4, ↓reduceIte] at h1 ⊢
+          exact oldRoot_mem h4 h1
+        · simp [h4] at h1
 
 end Aergo.TrieStore
